@@ -98,7 +98,7 @@ func (l *enumValueLoader) commentEnd(lex lexeme.LexEvent) {
 	// A comment belongs to the value before it: before the first value there is
 	// nothing to attach it to.
 	if l.enumConstraint.Len() != 0 {
-		l.enumConstraint.SetComment(l.lastIdx, lex.Value().String())
+		l.enumConstraint.SetComment(l.lastIdx, lex.Value().TrimSpaces().String())
 	}
 	l.stateFunc = l.annotationEnd
 }
